@@ -273,6 +273,10 @@ def final_cases(draw, tier):
     cfg.update(savefreq=n, k=k, m=draw(st.integers(2, 5)), maxiter=k, path='final', de_kwargs=False, advance=0,
                stepmon=draw(st.sampled_from([None, 'plain', 'logging'])), evalmon=draw(st.sampled_from([None, 'plain'])),
                monk=draw(st.sampled_from([None, None, -1])))
+    if draw(st.integers(0, 2)) == 0:
+        # a setter called on the running solver just before its last iteration / before the Step that finds it stopped
+        hows = ['penalty2', 'penalty2', 'penalty', 'constraints'] + (['ranges'] if cfg.get('bounds') else [])
+        cfg['reconf'] = [[draw(st.sampled_from([k, k + 1])), draw(st.sampled_from(hows))]]
     return cfg
 
 
@@ -283,6 +287,7 @@ def run_final(case, ctx):
     s = run.solver
     msg = None
     for b in range(k + 4):
+        if _reconf(case, run, s, b): ctx.label('setter-before-the-stop')
         msg = s.Step(callback=run.cb)
         if msg:
             break
